@@ -112,6 +112,31 @@ def gen_sequence(seed):
             return pabs[len(cwd.rstrip("/")) + 1 :]
         return pabs
 
+    def place(i, dest_abs, wi):
+        """model after upload(tree i, dest_abs, write_into=wi), or None if it would collide"""
+        target = dest_abs if wi else dest_abs.rstrip("/") + "/" + names[i]
+        placed = flatten(trees[i], target)
+        allp = with_parents({**model, **placed})
+        ok = all(_kind_of(model, k) in (None, "dir" if v is None else "file") for k, v in placed.items())
+        ok = ok and all(_kind_of(model, k) in (None, "dir") for k in set(allp) - set(placed))
+        return allp if ok else None
+
+    if rnd.random() < 0.3:
+        # the same *relative* destination used from two working directories on one connection
+        # (a client that remembers which directories it has made must forget them on CWD)
+        i = rnd.randrange(2)
+        rel = rnd.choice(["up", "up/deep", "folder1", "d"])
+        wi = rnd.random() < 0.5
+        d1, d2 = rnd.sample(["/", "/w", "/w/x", "/other"], 2)
+        for d in (d1, d2):
+            if d != cwd:
+                ops.append(["cd", d])
+                cwd = d
+            m2 = place(i, absolutize(cwd, rel), wi)
+            if m2 is None:
+                break
+            ops.append(["upload", i, rel, wi])
+            model = m2
     for _ in range(rnd.randint(3, 7)):
         x = rnd.random()
         dirs = sorted(k for k, v in model.items() if v is None)
